@@ -374,8 +374,24 @@ def _run_classes(sh, ctx, ch):
 		ch.check(k, prefix, seqs, variants='all' if full else 'rotate', check_find=(i % 3 == 0), sample=(i % 501 == 0))
 
 
+def _run_boundary_kmers(ctx, ch):
+	"""The k-mers with the smallest and the largest index for every k (all-A = 0, all-T = 4^k - 1, which is 2^64 - 1 for k = 32 - the
+	value a native routine might use as a sentinel), after the prefix on the forward strand and on the reverse strand, in both cases."""
+	comp = bytes.maketrans(b'ACGT', b'TGCA')
+	for k in range(1, 33):
+		for prefix in (b'ATGAC', b'AT', b'C'):
+			for km in (b'T' * k, b'A' * k, b'T' * (k - 1) + b'G', b'G' + b'T' * (k - 1), (b'TG' * k)[:k]):
+				fwd = prefix + km
+				rev = fwd.translate(comp)[::-1]
+				for s in (fwd, rev, b'CC' + fwd + b'CC', fwd.lower(), b'GG' + rev.lower() + b'G', fwd + rev):
+					ch.check(k, prefix, [s], variants='rotate', check_find=False)
+		ctx.seen('k_values', k)
+	ctx.count('boundary_kmers_all_k')
+
+
 def _run_long(sh, ctx, ch):
 	rng = random.Random(f'C01-long-{ctx.seed}')
+	_run_boundary_kmers(ctx, ch)
 	for i in range(sh['n']):
 		k = rng.choice([5, 8, 11, 12, 16, 21, 32])
 		prefix = rng.choice([b'ATGAC', b'AT', b'ACG', b'GATC'])
@@ -437,7 +453,7 @@ def _run_blocks(sh, ctx, ch):
 
 def finalize(merged, tier, seed, inconclusive):
 	c = merged['counters']
-	need = ['block_boundary_occurrences_planted', 'alphabet:ws', 'calls:bytearray/reused-buffer', 'earlier_results_rechecked', 'calls:bytes/default', 'calls:str/set', 'calls:Seq/array', 'calls:bytearray/default', 'find_kmers_calls',
+	need = ['block_boundary_occurrences_planted', 'boundary_kmers_all_k', 'alphabet:ws', 'calls:bytearray/reused-buffer', 'earlier_results_rechecked', 'calls:bytes/default', 'calls:str/set', 'calls:Seq/array', 'calls:bytearray/default', 'find_kmers_calls',
 	        'cases_match_flush_with_end', 'cases_overlapping_matches', 'cases_with_dropped_nonACGT_kmer', 'cases_both_strands', 'failing_calls_raised']
 	for n in need:
 		if c.get(n, 0) == 0:
